@@ -571,6 +571,21 @@ func (w *muxWorld) checkWire() muxVerdict {
 		return muxVerdict{"wire-undecodable", w.wireErr}
 	}
 	for _, e := range []string{"c", "s"} {
+		// a close on a healthy session puts exactly one closing frame of that stream on the wire
+		for sid, called := range w.closeAny[e] {
+			if !called || w.abnormal || w.sendFail[e][sid] || w.conc.Singleplex {
+				continue
+			}
+			n := 0
+			for _, f := range w.wire[e][uint32(sid)] {
+				if f.Closing == closingStream {
+					n++
+				}
+			}
+			if n == 0 {
+				return muxVerdict{"close-frame-missing", fmt.Sprintf("%s closed stream %d on a healthy session but no closing frame of that stream reached the wire", e, sid)}
+			}
+		}
 		for sid, frames := range w.wire[e] {
 			if sid == 0xffffffff {
 				continue
